@@ -1,4 +1,4 @@
-"""C05 — Parallelism limit is respected and slots are conserved."""
+"""C05 — Builds terminate: dependency cycles are reported, never deadlock."""
 import os
 import sys
 sys.path.insert(0, os.path.join(os.path.dirname(os.path.dirname(os.path.abspath(__file__))), "harness", "runner"))
@@ -6,9 +6,21 @@ import rcommon
 
 META = {
     "property_id": "C05",
-    "technique": "Coq invariant proofs over an interleaving model of runner/runner.go + trace acceptance of hook logs of the real runner",
-    "level_text": "TBD",
-    "level_note": "TBD",
+    "technique": "Coq proofs (deadlock freedom by a publication-clock invariant, termination by a variant) over an interleaving "
+                 "model of runner/runner.go + trace acceptance of hook logs of the real runner + watchdog",
+    "level_text": "Theorems (Coq, every directed graph incl. self-loops and overlapping cycles, every schedule, every limit >= 1): "
+                  "every reachable non-quiescent state has an enabled thread (no deadlock, also before Run returns); every "
+                  "schedule has at most bound(cfg) steps (no livelock; the walk visits each label at most once); a cyclic result "
+                  "arises only if the declared dependencies have a cycle through that target, reachable from the root (none in "
+                  "acyclic builds); if a cycle is reachable from the root, Run returns an error and by then some target was "
+                  "handed a CyclicDependencyError. A 2-cycle witness schedule and exhaustive all-schedule explorations of five "
+                  "tiny configurations are included as tests. The model is tied to runner.go by replaying hook logs of real runs "
+                  "(every waiting.Load observes the model's nil/non-nil; publish/clear/walk order). Direct oracles: watchdog (no "
+                  "hang, all goroutines end), cyclic => Run fails and a cycle error was produced, acyclic => none.",
+    "level_note": "Trusted: Coq kernel; the hook dispatcher; Go's scheduler fairness (deadlock freedom + bounded schedules give "
+                  "termination under any fair scheduler); sync.Cond wake-ups (a model Wait is enabled iff the dependency is not "
+                  "Running). The model is of the repaired code (visited set in engine.check, fix 38094ed); without it "
+                  "`terminates` is false (F11). Schedules on the implementation are sampled (seeded jitter), not enumerated.",
     "design_ref": "DESIGN.md §6 C05, Appendix B",
 }
 
@@ -17,5 +29,5 @@ SIZES = {"quick": (150, 2), "thorough": (3000, 12)}
 
 def run(ctx):
     rcommon.run_check(ctx, "C05", "Runner/Props_C05.v", SIZES,
-                      "C05 oracles: harness counter of targets inside LoadTarget/Evaluate but outside EvaluateTargets <= limit "
-                      "at all times; gate capacity = limit at quiescence; every logged gate.enter/gate.exit capacity equals the model's.")
+                      "C05 oracles: watchdog (Run returns and every goroutine ends within 4 s); a cycle reachable from the root => Run "
+                      "returns an error and a CyclicDependencyError was produced; acyclic => no CyclicDependencyError.")
